@@ -130,6 +130,10 @@ var credClasses = []credClass{
 	{"lowercase-scheme", func(f *authFixture) (string, bool) { return "bearer " + f.Admin, true }, "reject"},
 	{"token-only", func(f *authFixture) (string, bool) { return f.Admin, true }, "reject"},
 	{"unknown-token", func(f *authFixture) (string, bool) { return "Bearer nosuchtoken0000000000000000000000", true }, "reject"},
+	{"admin-token-prefix", func(f *authFixture) (string, bool) { return "Bearer " + f.Admin[:1], true }, "reject"},
+	{"admin-token-all-but-last", func(f *authFixture) (string, bool) { return "Bearer " + f.Admin[:len(f.Admin)-1], true }, "reject"},
+	{"admin-token-plus-suffix", func(f *authFixture) (string, bool) { return "Bearer " + f.Admin + "x", true }, "reject"},
+	{"user-token-prefix", func(f *authFixture) (string, bool) { return "Bearer " + f.User[:8], true }, "reject"},
 	{"revoked-token", func(f *authFixture) (string, bool) { return "Bearer " + f.Revoked, true }, "reject"},
 	{"user-token", func(f *authFixture) (string, bool) { return "Bearer " + f.User, true }, "user"},
 	{"admin-token", func(f *authFixture) (string, bool) { return "Bearer " + f.Admin, true }, "admin"},
